@@ -201,4 +201,29 @@ PROPS = {
         "assumptions": ["both identities have the same id (checked by the caller in MergeAll: the local ref is derived from the remote identity's id)"],
         "gen_facts": [],
     },
+    "C12": {
+        "level_text": "FULL on evaluation: match_spec (any-of within status/author/actor/participant/metadata, all-of for labels, titles and "
+                      "across kinds, no:label), identity_match_ci, query_result/query_exact (the result is exactly the matching excerpts, each "
+                      "once, sorted by the requested key and direction; the three comparators are strict weak orders) for unbounded "
+                      "populations. Parser: total by construction (the model has no partial operation; the Go code's slices are guarded), "
+                      "rejections proved per class (two sorts, unknown qualifier/status/sort/no, edge colon, unmatched quote). PARTIAL: the "
+                      "render/parse round trip over the whole documented grammar is validated by the correspondence run (structured queries "
+                      "with quoted multi-word values, sub-qualifiers, both quote kinds), not proved; full-text matching is bleve's.",
+        "level_note": "Trusted: Lean kernel, harness. unicode.IsSpace, strings.ToLower/TrimSpace are environment functions supplied per case as "
+                      "tables by the harness (computed with the real functions). sort.Sort is assumed to sort under a strict weak order. "
+                      "Observed and reproduced by the model, not classified as violations: `label::x` parses as label:x and `label:\"\"` as "
+                      "an empty value (the in-loop empty-chunk test is dead code). Fixed in /repo: search results were capped at 10.",
+        "required_theorems": ["match_spec", "identity_match_ci", "sortBy_perm", "sortBy_sorted", "less_weak", "query_result", "query_exact",
+                              "parse_rejects_two_sorts", "parse_rejects_unknown_qualifier", "parse_rejects_unknown_status",
+                              "parse_rejects_unknown_sort", "parse_rejects_unknown_no", "parse_label", "parse_metadata", "parse_search",
+                              "split_unmatched", "field_edge_colon"],
+        "slices": ["C12"],
+        "rule": "raw strings of 0..9 pieces over an alphabet of qualifiers, values, colons, spaces, tabs, both quotes and unicode (never "
+                "panics; same query or same error class as the model); structured queries rendered through the grammar of doc/queries.md "
+                "(round trip: parses to what it denotes); ~120 (quick) queries x populations of 10..30 bugs through RepoCacheBug.Query vs "
+                "the model; full-text search over >10 matching bugs on the bleve index; non-trivial = distinct strings / populations",
+        "trusted_base": [KERNEL, TIE, "model: GitBugModel.Query (splitFunc, tokenize, parse, matchesQ, less, sortBy, run) for query/*.go, cache/filter.go, sorters"],
+        "assumptions": ["within one repository sort keys are distinct (creation/edit Lamport times are unique per repository), so the order is fully determined; with ties the order among equals is unspecified"],
+        "gen_facts": [],
+    },
 }
